@@ -128,7 +128,7 @@ func checkListing(ctx *Ctx, what string, ids []string, starts map[int]int, witne
 }
 
 func checkC20(ctx *Ctx) {
-	ctx.Res.Rule = "audit trees generated directly (depth 0-4, fan-in 0-3, subtrees shared through several paths, zero and equal start times) written as .audit.json and converted by the real `scipipe audit2html|audit2tex|audit2bash` binary; listings parsed back (IDs / process names) and checked: every task of the lineage exactly once, non-decreasing start time, equal to the Lean model's flatten + listing (modulo the order inside groups of equal start time); plus real flat workflows whose audit2bash script is replayed in a fresh directory and compared byte-wise. Non-trivial = tree has more than one record; distinct by tree."
+	ctx.Res.Rule = "audit trees generated directly (depth 0-4, fan-in 0-3, subtrees shared through several paths, zero and equal start times) written as .audit.json and converted by the real `scipipe audit2html|audit2tex|audit2bash` binary; listings parsed back (IDs / process names) and checked: every task of the lineage exactly once, non-decreasing start time, equal to the Lean model's flatten + listing (modulo the order inside groups of equal start time); plus real flat workflows whose audit2bash script is replayed in a fresh directory and compared byte-wise. Non-trivial = tree has more than one record; distinct by tree; also from real workflows: Bash replay and HTML report of a join workflow, tags per task in the report of differently tagged merged branches, report order of a chain of Go-function tasks on a memory file system."
 	root := newDir()
 	defer os.RemoveAll(root)
 	cli := filepath.Join(root, "scipipe-cli")
